@@ -16,6 +16,19 @@ class MyConv(nn.Conv2d):
     pass
 
 
+def _fake(name, base=nn.Module):
+    """An UNSUPPORTED leaf class whose __name__ collides with a supported one (user-defined, not derived from torch's)."""
+    def __init__(self):
+        nn.Module.__init__(self)
+        self.weight = nn.Parameter(torch.zeros(2, 2))
+        self.bias = nn.Parameter(torch.zeros(2))
+    return type(name, (base,), {'__init__': __init__, 'forward': lambda self, x: x})
+
+
+FakeLinear = _fake('Linear')
+FakeConv2d = _fake('Conv2d')
+
+
 class LinearWithChild(nn.Linear):
     """A Linear subclass that is NOT a leaf."""
 
@@ -62,7 +75,7 @@ class Cast(nn.Module):
 def random_tree(rng, depth=0, pool=None):
     pool = pool if pool is not None else []
     kinds = ['linear', 'linear_nobias', 'conv', 'mylinear', 'myconv', 'bn', 'ln', 'emb', 'relu', 'bilinear', 'mha',
-             'frozen', 'partfrozen', 'shared', 'wrapchild', 'container', 'container', 'modulelist', 'moduledict', 'identity', 'conv1d']
+             'frozen', 'partfrozen', 'shared', 'wrapchild', 'container', 'container', 'modulelist', 'moduledict', 'identity', 'conv1d', 'fakelinear', 'fakeconv']
 
     def leaf(kind):
         if kind == 'linear':
@@ -102,6 +115,10 @@ def random_tree(rng, depth=0, pool=None):
             return m
         if kind == 'wrapchild':
             return LinearWithChild(2, 3)
+        if kind == 'fakelinear':
+            return FakeLinear()
+        if kind == 'fakeconv':
+            return FakeConv2d()
         raise ValueError(kind)
 
     n = rng.randint(1, 4) if depth else rng.randint(1, 5)
